@@ -187,15 +187,24 @@ Proof.
   - split; [reflexivity|]. split; [reflexivity|]. rewrite (map_disk_snapshot w s Hs). reflexivity.
 Qed.
 
+(* The lemmas about a dispatch are proved for any decision function `vg` of validate_dynamic_job that
+   has the reviewed shape with some `deferred` flag d in its "digest unchanged" branch; they are
+   instantiated below with the generated validate_gen (d = validate_unchanged_deferred) and with
+   validate_prefix, the code before fix d760e3e (d = false). *)
+Section ValidateDecision.
+Variable vg : bool -> bool -> bool * bool * N * bool.
+Variable d : bool.
+Hypothesis Hvg : forall ie, vg true ie = if ie then (false, true, SS_PENDING, d) else (true, false, 0, false).
+
 (* The dispatch decision itself. *)
-Lemma do_xtry_dispatched x t cancel x' k s :
-  do_xtry x t cancel = (x', XRTry k s) -> k <> 0 ->
+Lemma g_do_xtry_dispatched x t cancel x' k s :
+  do_xtry_gen vg x t cancel = (x', XRTry k s) -> k <> 0 ->
   dispatchable (xb x) = true /\ is_checking x = false /\ derive_error (xb x) = false /\
   ((k = 1 /\ x_hash x = None) \/
    (k = 2 /\ dyn_ready (xb x) = true /\ exists sh, x_hash x = Some sh) \/
    (k = 3 /\ dyn_ready (xb x) = false /\ exists sh, x_hash x = Some sh)).
 Proof.
-  unfold do_xtry. intros H Hk.
+  unfold do_xtry_gen. intros H Hk.
   destruct (dispatchable (xb x)) eqn:Hd; cbn [negb orb] in H; [|inversion H; subst; contradiction].
   destruct (is_checking x) eqn:Hc; [inversion H; subst; contradiction|].
   destruct (derive_error (xb x)) eqn:He; [inversion H; subst; contradiction|].
@@ -208,37 +217,37 @@ Proof.
       rewrite try_skip_phase1_spec in H. destruct (inp_equal _ _ _); inversion H; reflexivity.
     + right. right. split; [|split; [reflexivity|exists sh; reflexivity]].
       destruct (new_run _ _ _); [|inversion H; reflexivity|inversion H; reflexivity].
-      rewrite validate_spec in H. destruct (inp_equal _ _ _); inversion H; reflexivity.
+      rewrite Hvg in H. destruct (inp_equal _ _ _); inversion H; reflexivity.
   - left. split; [|reflexivity].
     destruct cancel; [inversion H; reflexivity|].
     destruct (do_try (xb x) t) as [w' r]. inversion H; reflexivity.
 Qed.
 
 (* The dispatch of a step that holds a stored hash, as one case analysis (both kinds of job). *)
-Lemma do_xtry_with_hash x t cancel sh :
+Lemma g_do_xtry_with_hash x t cancel sh :
   dispatchable (xb x) = true -> is_checking x = false -> derive_error (xb x) = false ->
   x_hash x = Some sh ->
   let w := xb x in
   let w1 := set_crow w SS_CHECKING false (c_dc w) in
   let kn := if dyn_ready w then 2 else 3 in
-  do_xtry x t cancel =
+  do_xtry_gen vg x t cancel =
     match new_run w1 (snapshot w) cancel with
     | NR_cancelled => (set_xhash (set_xb x (fail_new_run w1 t [])) None, XRTry kn false)
     | NR_changed ch => (set_xhash (set_xb x (fail_new_run w1 t ch)) None, XRTry kn false)
     | NR_ok inp =>
         if inp_equal sh (x_envc x) inp then
           if dyn_ready w then (set_xchk (set_xb x w1) (Some (mkChk sh (x_envc x) inp)), XRTry 2 false)
-          else (set_xb x (set_crow w1 SS_PENDING validate_unchanged_deferred (c_dc w)), XRTry 3 false)
+          else (set_xb x (set_crow w1 SS_PENDING d (c_dc w)), XRTry 3 false)
         else (apply_reset x w1, XRTry kn false)
     end.
 Proof.
-  intros Hd Hc He Hh. cbv zeta. unfold do_xtry. rewrite Hd, Hc, He. cbn [negb orb].
+  intros Hd Hc He Hh. cbv zeta. unfold do_xtry_gen. rewrite Hd, Hc, He. cbn [negb orb].
   rewrite derive_job_kind_spec. unfold has_hash. rewrite Hh. rewrite get_next_step_state_spec.
   destruct (dyn_ready (xb x)).
   - destruct (new_run _ _ _); try reflexivity.
     rewrite try_skip_phase1_spec. destruct (inp_equal _ _ _); reflexivity.
   - destruct (new_run _ _ _); try reflexivity.
-    rewrite validate_spec. destruct (inp_equal _ _ _); reflexivity.
+    rewrite Hvg. destruct (inp_equal _ _ _); reflexivity.
 Qed.
 
 (* try_skip_job after the output hashing, as one case analysis. *)
@@ -296,7 +305,7 @@ Qed.
 (* D. The theorems                                                                          *)
 (* ====================================================================================== *)
 
-(* skip_succeeded_describes_files.  If a dispatch in x0 starts try_skip_job (kind 2), other actors
+(* g_skip_succeeded_describes_files.  If a dispatch in x0 starts try_skip_job (kind 2), other actors
    act (mid) while the outputs are being hashed, and try_skip_job then reports a skip, then: c held a
    stored hash sh; when the inputs were hashed every declared and every recorded amended input was
    attached, BUILT or CONFIRMED, on disk with its recorded hash, and the ingredient list of the stored
@@ -304,8 +313,8 @@ Qed.
    ingredients; when the outputs were hashed the ingredient list of the stored output digest is
    exactly {(o, hash of o on disk)} over the outputs; c becomes SUCCEEDED with the same hash, no
    command ran and no stamp was recorded. *)
-Theorem skip_succeeded_describes_files x0 t x1 mid t' x3 :
-  do_xtry x0 t false = (x1, XRTry 2 false) -> is_checking x1 = true ->
+Theorem g_skip_succeeded_describes_files x0 t x1 mid t' x3 :
+  do_xtry_gen vg x0 t false = (x1, XRTry 2 false) -> is_checking x1 = true ->
   forallb xenv_only mid = true ->
   let x2 := xrun mid x1 in
   do_xchk x2 t' false = (x3, XRChk true) ->
@@ -324,9 +333,9 @@ Theorem skip_succeeded_describes_files x0 t x1 mid t' x3 :
 Proof.
   intros Htry Hchk Hmid. cbv zeta. intros Hend.
   assert (Hk2 : (2 : N) <> 0) by discriminate.
-  destruct (do_xtry_dispatched _ _ _ _ _ _ Htry Hk2) as [Hd [Hc [He Hkind]]].
+  destruct (g_do_xtry_dispatched _ _ _ _ _ _ Htry Hk2) as [Hd [Hc [He Hkind]]].
   destruct Hkind as [[Hk _]|[[_ [Hr [sh Hh]]]|[Hk _]]]; try discriminate Hk.
-  pose proof (do_xtry_with_hash x0 t false sh Hd Hc He Hh) as Hspec. cbv zeta in Hspec.
+  pose proof (g_do_xtry_with_hash x0 t false sh Hd Hc He Hh) as Hspec. cbv zeta in Hspec.
   rewrite Hspec in Htry. clear Hspec. rewrite Hr in Htry.
   pose proof (new_run_cases (set_crow (xb x0) SS_CHECKING false (c_dc (xb x0))) (snapshot (xb x0)) false) as Hnr.
   destruct (new_run _ _ false) as [inp| |ch].
@@ -385,7 +394,7 @@ Proof.
   unfold is_running in Hnr. destruct (c_run w); [discriminate|]. repeat split; assumption.
 Qed.
 
-(* checking_outcomes.  The dispatch of a step that holds a stored hash (try_skip_job or
+(* g_checking_outcomes.  The dispatch of a step that holds a stored hash (try_skip_job or
    validate_dynamic_job), hash computation not cancelled:
    - an input that differs from its record: FAILED, draining, hash deleted;
    - the input digest differs from the stored one: PENDING, not deferred, hash deleted, amended
@@ -393,8 +402,8 @@ Qed.
    - otherwise try_skip_job goes on to hash the outputs (the step stays CHECKING) and
      validate_dynamic_job puts the step back to PENDING.
    In no case does the command start, and the step is never SUCCEEDED afterwards. *)
-Theorem checking_outcomes x t x' k s sh :
-  do_xtry x t false = (x', XRTry k s) -> (k = 2 \/ k = 3) -> x_hash x = Some sh ->
+Theorem g_checking_outcomes x t x' k s sh :
+  do_xtry_gen vg x t false = (x', XRTry k s) -> (k = 2 \/ k = 3) -> x_hash x = Some sh ->
   s = false /\ c_run (xb x') = None /\ c_state (xb x') <> SS_SUCCEEDED /\
   (snap_changed (xb x) (snapshot (xb x)) = true ->
      c_state (xb x') = SS_FAILED /\ draining (xb x') = true /\ x_hash x' = None /\ x_chk x' = None) /\
@@ -407,14 +416,14 @@ Theorem checking_outcomes x t x' k s sh :
      x_hash x' = Some sh /\
      (k = 2 -> c_state (xb x') = SS_CHECKING /\
                x_chk x' = Some (mkChk sh (x_envc x) (canon (snapshot (xb x))))) /\
-     (k = 3 -> c_state (xb x') = SS_PENDING /\ c_deferred (xb x') = validate_unchanged_deferred /\
-               x_chk x' = x_chk x /\ (validate_unchanged_deferred = false -> x' = x))).
+     (k = 3 -> c_state (xb x') = SS_PENDING /\ c_deferred (xb x') = d /\
+               x_chk x' = x_chk x /\ (d = false -> x' = x))).
 Proof.
   intros Htry Hk Hh.
   assert (Hk0 : k <> 0) by (destruct Hk; subst; discriminate).
-  destruct (do_xtry_dispatched _ _ _ _ _ _ Htry Hk0) as [Hd [Hc [He Hkind]]].
+  destruct (g_do_xtry_dispatched _ _ _ _ _ _ Htry Hk0) as [Hd [Hc [He Hkind]]].
   destruct (dispatchable_facts _ Hd) as [_ [Hst [Hdf [_ Hrun]]]].
-  pose proof (do_xtry_with_hash x t false sh Hd Hc He Hh) as Hspec. cbv zeta in Hspec.
+  pose proof (g_do_xtry_with_hash x t false sh Hd Hc He Hh) as Hspec. cbv zeta in Hspec.
   rewrite Hspec in Htry. clear Hspec.
   pose proof (new_run_cases (set_crow (xb x) SS_CHECKING false (c_dc (xb x))) (snapshot (xb x)) false) as Hnr.
   rewrite snap_changed_crow in Hnr.
@@ -445,30 +454,30 @@ Proof.
     split; [intros H; rewrite H in Hsc; discriminate|]. intros H; rewrite H in Hsc; discriminate.
 Qed.
 
-(* validate_never_succeeds_never_runs.  Whatever validate_dynamic_job finds (cancelled or not), the
+(* g_validate_never_succeeds_never_runs.  Whatever validate_dynamic_job finds (cancelled or not), the
    command does not start, the step ends PENDING or FAILED, never SUCCEEDED; and when the stored
    hash survives (the "digest unchanged" branch) the whole state is exactly what it was before the
    dispatch. *)
-Theorem validate_never_succeeds_never_runs x t cancel x' s :
-  do_xtry x t cancel = (x', XRTry 3 s) ->
+Theorem g_validate_never_succeeds_never_runs x t cancel x' s :
+  do_xtry_gen vg x t cancel = (x', XRTry 3 s) ->
   s = false /\ c_run (xb x') = None /\ x_chk x' = None /\
   (c_state (xb x') = SS_PENDING \/ c_state (xb x') = SS_FAILED) /\
-  (has_hash x' = true -> validate_unchanged_deferred = false -> x' = x).
+  (has_hash x' = true -> d = false -> x' = x).
 Proof.
   intros Htry.
   assert (Hk0 : (3 : N) <> 0) by discriminate.
-  destruct (do_xtry_dispatched _ _ _ _ _ _ Htry Hk0) as [Hd [Hc [He Hkind]]].
+  destruct (g_do_xtry_dispatched _ _ _ _ _ _ Htry Hk0) as [Hd [Hc [He Hkind]]].
   destruct Hkind as [[Hk _]|[[Hk _]|[_ [Hr [sh Hh]]]]]; try discriminate Hk.
   destruct (dispatchable_facts _ Hd) as [_ [Hst [Hdf [_ Hrun]]]].
   assert (Hchk : x_chk x = None) by (unfold is_checking in Hc; destruct (x_chk x); [discriminate|reflexivity]).
   destruct cancel.
-  - pose proof (do_xtry_with_hash x t true sh Hd Hc He Hh) as Hspec. cbv zeta in Hspec.
+  - pose proof (g_do_xtry_with_hash x t true sh Hd Hc He Hh) as Hspec. cbv zeta in Hspec.
     rewrite Hspec in Htry. clear Hspec. unfold new_run in Htry. inversion Htry; subst x' s. clear Htry.
     destruct (fail_new_run_spec (set_crow (xb x) SS_CHECKING false (c_dc (xb x))) t []) as [Hs [_ [Hr' _]]].
     cbn [xb set_xhash set_xb x_chk]. split; [reflexivity|]. split; [rewrite Hr'; exact Hrun|].
     split; [exact Hchk|]. split; [right; exact Hs|]. intros H; discriminate H.
   - assert (H3 : (3 : N) = 2 \/ (3 : N) = 3) by (right; reflexivity).
-    destruct (checking_outcomes x t x' 3 s sh Htry H3 Hh) as [Hs [Hrun' [_ [Hch [Hre Hsame]]]]].
+    destruct (g_checking_outcomes x t x' 3 s sh Htry H3 Hh) as [Hs [Hrun' [_ [Hch [Hre Hsame]]]]].
     split; [exact Hs|]. split; [exact Hrun'|].
     destruct (snap_changed (xb x) (snapshot (xb x))) eqn:Hsc.
     + destruct (Hch eq_refl) as [Hf [_ [Hnh Hk']]]. split; [exact Hk'|]. split; [right; exact Hf|].
@@ -480,25 +489,25 @@ Proof.
         unfold has_hash. rewrite Hnh. discriminate.
 Qed.
 
-(* validate_unchanged_redispatches (a hazard of the code, see design.d/C03.md): the "digest
+(* g_validate_unchanged_redispatches (a hazard of the code, see design.d/C03.md): the "digest
    unchanged" branch of validate_dynamic_job leaves the step PENDING, not deferred, with its hash,
    i.e. exactly as it was dispatched; unless another actor changes something, every further dispatch
    derives the same job again with the same result. *)
-Theorem validate_unchanged_redispatches x t x' s :
-  validate_unchanged_deferred = false ->
-  do_xtry x t false = (x', XRTry 3 s) -> has_hash x' = true ->
-  forall n t', xrun (repeat (XTry t' false) n) x = x /\ do_xtry x t' false = (x, XRTry 3 false).
+Theorem g_validate_unchanged_redispatches x t x' s :
+  d = false ->
+  do_xtry_gen vg x t false = (x', XRTry 3 s) -> has_hash x' = true ->
+  x' = x /\ forall t', do_xtry_gen vg x t' false = (x, XRTry 3 false).
 Proof.
   intros Hv Htry Hh.
-  destruct (validate_never_succeeds_never_runs x t false x' s Htry) as [Hs [_ [_ [_ Hx]]]].
-  specialize (Hx Hh Hv). subst x' s.
-  assert (Hany : forall t', do_xtry x t' false = (x, XRTry 3 false)).
+  destruct (g_validate_never_succeeds_never_runs x t false x' s Htry) as [Hs [_ [_ [_ Hx]]]].
+  specialize (Hx Hh Hv). subst x' s. split; [reflexivity|].
+  assert (Hany : forall t', do_xtry_gen vg x t' false = (x, XRTry 3 false)).
   { intros t'.
     assert (Hk0 : (3 : N) <> 0) by discriminate.
-    destruct (do_xtry_dispatched _ _ _ _ _ _ Htry Hk0) as [Hd [Hc [He Hkind]]].
+    destruct (g_do_xtry_dispatched _ _ _ _ _ _ Htry Hk0) as [Hd [Hc [He Hkind]]].
     destruct Hkind as [[Hk _]|[[Hk _]|[_ [Hr [sh Hsh]]]]]; try discriminate Hk.
-    pose proof (do_xtry_with_hash x t false sh Hd Hc He Hsh) as S1.
-    pose proof (do_xtry_with_hash x t' false sh Hd Hc He Hsh) as S2. cbv zeta in S1, S2.
+    pose proof (g_do_xtry_with_hash x t false sh Hd Hc He Hsh) as S1.
+    pose proof (g_do_xtry_with_hash x t' false sh Hd Hc He Hsh) as S2. cbv zeta in S1, S2.
     rewrite S1 in Htry. rewrite S2. rewrite Hr in *. unfold new_run in *.
     destruct (snap_changed _ _).
     - exfalso. injection Htry as Hx. apply (f_equal x_hash) in Hx. cbn in Hx. congruence.
@@ -506,9 +515,175 @@ Proof.
       + exact Htry.
       + exfalso. injection Htry as Hx. rewrite apply_reset_spec in Hx.
         apply (f_equal x_hash) in Hx. cbn in Hx. congruence. }
-  intros n t'. split; [|apply Hany].
-  induction n as [|n IH]; [reflexivity|]. cbn [repeat]. unfold xrun in *. cbn [fold_left xstep].
-  rewrite (Hany t'). cbn [fst]. exact IH.
+  exact Hany.
+Qed.
+
+(* Events of other actors that do not touch the row of c (mark_step_pending is an ECRow event). *)
+Definition not_crow (e : xev) : bool :=
+  match e with XE (ECRow _ _ _) => false | XE _ | XEnvC _ | XHashDel => true | _ => false end.
+
+Lemma not_crow_frame x e :
+  not_crow e = true -> c_run (xb x) = None ->
+  c_state (xb (fst (xstep x e))) = c_state (xb x) /\ c_deferred (xb (fst (xstep x e))) = c_deferred (xb x) /\
+  c_run (xb (fst (xstep x e))) = None.
+Proof.
+  intros He Hrun. destruct e as [e|n| |t c|t c|t ok c]; try discriminate He; cbn [xstep].
+  - destruct e as [f v|f row|st df dc|b|dr|t|ps|t ok]; try discriminate He; cbn [env_ev step fst];
+      try (cbn; auto; fail).
+    unfold do_amend. rewrite Hrun. cbn. auto.
+  - cbn. auto.
+  - cbn. auto.
+Qed.
+
+Lemma not_crow_run evs : forall x,
+  forallb not_crow evs = true -> c_run (xb x) = None ->
+  c_state (xb (xrun evs x)) = c_state (xb x) /\ c_deferred (xb (xrun evs x)) = c_deferred (xb x) /\
+  c_run (xb (xrun evs x)) = None.
+Proof.
+  induction evs as [|e evs IH]; intros x H Hrun; [cbn; auto|].
+  cbn [forallb] in H. apply andb_true_iff in H as [He H].
+  destruct (not_crow_frame x e He Hrun) as [H1 [H2 H3]].
+  destruct (IH (fst (xstep x e)) H H3) as [H4 [H5 H6]].
+  unfold xrun in *. cbn [fold_left]. rewrite H4, H5, H1, H2. auto.
+Qed.
+
+(* validate_unchanged_waits: when the "digest unchanged" branch sets `deferred` (d = true, the code
+   since fix d760e3e), the step is left PENDING and deferred with its hash, and it is NOT dispatched
+   again, whatever other actors do, until a transaction changes the row of c itself (which is what
+   Workflow.mark_step_pending does when an input of c changes: it clears `deferred`). *)
+Theorem g_validate_unchanged_waits x t x' s :
+  d = true ->
+  do_xtry_gen vg x t false = (x', XRTry 3 s) -> has_hash x' = true ->
+  c_state (xb x') = SS_PENDING /\ c_deferred (xb x') = true /\ x_hash x' = x_hash x /\
+  forall mid, forallb not_crow mid = true ->
+    forall t' c, do_xtry_gen vg (xrun mid x') t' c = (xrun mid x', XRTry 0 false).
+Proof.
+  intros Hd Htry Hh.
+  assert (Hk0 : (3 : N) <> 0) by discriminate.
+  destruct (g_do_xtry_dispatched _ _ _ _ _ _ Htry Hk0) as [Hdisp [Hc [He Hkind]]].
+  destruct Hkind as [[Hk _]|[[Hk _]|[_ [Hr [sh Hsh]]]]]; try discriminate Hk.
+  assert (H3 : (3 : N) = 2 \/ (3 : N) = 3) by (right; reflexivity).
+  destruct (g_checking_outcomes x t x' 3 s sh Htry H3 Hsh) as [_ [Hrun [_ [Hch [Hre Hsame]]]]].
+  assert (Hbranch : snap_changed (xb x) (snapshot (xb x)) = false /\
+                    inp_equal sh (x_envc x) (canon (snapshot (xb x))) = true).
+  { destruct (snap_changed (xb x) (snapshot (xb x))) eqn:Hsc.
+    - destruct (Hch eq_refl) as [_ [_ [Hn _]]]. unfold has_hash in Hh. rewrite Hn in Hh. discriminate Hh.
+    - split; [reflexivity|]. destruct (inp_equal sh (x_envc x) (canon (snapshot (xb x)))) eqn:Hie; [reflexivity|].
+      destruct (Hre eq_refl eq_refl) as [_ [_ [_ [Hn _]]]]. unfold has_hash in Hh. rewrite Hn in Hh. discriminate Hh. }
+  destruct Hbranch as [Hsc Hie].
+  destruct (Hsame Hsc Hie) as [Hhash [_ H3']]. destruct (H3' eq_refl) as [Hp [Hdf _]].
+  rewrite Hd in Hdf.
+  split; [exact Hp|]. split; [exact Hdf|]. split; [rewrite Hhash; symmetry; exact Hsh|].
+  intros mid Hmid t' c.
+  destruct (not_crow_run mid x' Hmid Hrun) as [_ [Hdf' _]].
+  unfold do_xtry_gen, dispatchable. rewrite Hdf', Hdf. cbn [negb]. rewrite !andb_false_r. cbn [negb andb orb].
+  reflexivity.
+Qed.
+
+End ValidateDecision.
+
+(* ---- instances: the generated decision ---- *)
+
+Lemma do_xtry_dispatched x t cancel x' k s :
+  do_xtry x t cancel = (x', XRTry k s) -> k <> 0 ->
+  dispatchable (xb x) = true /\ is_checking x = false /\ derive_error (xb x) = false /\
+  ((k = 1 /\ x_hash x = None) \/
+   (k = 2 /\ dyn_ready (xb x) = true /\ exists sh, x_hash x = Some sh) \/
+   (k = 3 /\ dyn_ready (xb x) = false /\ exists sh, x_hash x = Some sh)).
+Proof. exact (g_do_xtry_dispatched validate_gen _ validate_spec x t cancel x' k s). Qed.
+
+Lemma do_xtry_with_hash x t cancel sh :
+  dispatchable (xb x) = true -> is_checking x = false -> derive_error (xb x) = false ->
+  x_hash x = Some sh ->
+  let w := xb x in
+  let w1 := set_crow w SS_CHECKING false (c_dc w) in
+  let kn := if dyn_ready w then 2 else 3 in
+  do_xtry x t cancel =
+    match new_run w1 (snapshot w) cancel with
+    | NR_cancelled => (set_xhash (set_xb x (fail_new_run w1 t [])) None, XRTry kn false)
+    | NR_changed ch => (set_xhash (set_xb x (fail_new_run w1 t ch)) None, XRTry kn false)
+    | NR_ok inp =>
+        if inp_equal sh (x_envc x) inp then
+          if dyn_ready w then (set_xchk (set_xb x w1) (Some (mkChk sh (x_envc x) inp)), XRTry 2 false)
+          else (set_xb x (set_crow w1 SS_PENDING validate_unchanged_deferred (c_dc w)), XRTry 3 false)
+        else (apply_reset x w1, XRTry kn false)
+    end.
+Proof. exact (g_do_xtry_with_hash validate_gen _ validate_spec x t cancel sh). Qed.
+
+Theorem skip_succeeded_describes_files x0 t x1 mid t' x3 :
+  do_xtry x0 t false = (x1, XRTry 2 false) -> is_checking x1 = true ->
+  forallb xenv_only mid = true ->
+  let x2 := xrun mid x1 in
+  do_xchk x2 t' false = (x3, XRChk true) ->
+  exists sh,
+    x_hash x0 = Some sh /\ sh_env sh = x_envc x0 /\
+    (forall f, In f (all_inputs (xb x0)) ->
+       f_detached (files (xb x0) f) = false /\
+       (f_state (files (xb x0) f) = FS_BUILT \/ f_state (files (xb x0) f) = FS_CONFIRMED) /\
+       disk (xb x0) f = f_hash (files (xb x0) f) /\
+       In (f, disk (xb x0) f) (sh_inp sh)) /\
+    (forall f h, In (f, h) (sh_inp sh) -> In f (all_inputs (xb x0)) /\ disk (xb x0) f = h) /\
+    (forall o, In o (x_outs x0) -> In (o, disk (xb x2) o) (sh_out sh)) /\
+    (forall o h, In (o, h) (sh_out sh) -> In o (x_outs x0) /\ disk (xb x2) o = h) /\
+    c_state (xb x3) = SS_SUCCEEDED /\ c_run (xb x3) = None /\ bk (xb x3) = bk (xb x2) /\
+    x_hash x3 = Some sh /\ x_chk x3 = None.
+Proof. exact (g_skip_succeeded_describes_files validate_gen _ validate_spec x0 t x1 mid t' x3). Qed.
+
+Theorem checking_outcomes x t x' k s sh :
+  do_xtry x t false = (x', XRTry k s) -> (k = 2 \/ k = 3) -> x_hash x = Some sh ->
+  s = false /\ c_run (xb x') = None /\ c_state (xb x') <> SS_SUCCEEDED /\
+  (snap_changed (xb x) (snapshot (xb x)) = true ->
+     c_state (xb x') = SS_FAILED /\ draining (xb x') = true /\ x_hash x' = None /\ x_chk x' = None) /\
+  (snap_changed (xb x) (snapshot (xb x)) = false ->
+   inp_equal sh (x_envc x) (canon (snapshot (xb x))) = false ->
+     c_state (xb x') = SS_PENDING /\ c_deferred (xb x') = false /\ c_dyn (xb x') = [] /\
+     x_hash x' = None /\ x_chk x' = None) /\
+  (snap_changed (xb x) (snapshot (xb x)) = false ->
+   inp_equal sh (x_envc x) (canon (snapshot (xb x))) = true ->
+     x_hash x' = Some sh /\
+     (k = 2 -> c_state (xb x') = SS_CHECKING /\
+               x_chk x' = Some (mkChk sh (x_envc x) (canon (snapshot (xb x))))) /\
+     (k = 3 -> c_state (xb x') = SS_PENDING /\ c_deferred (xb x') = validate_unchanged_deferred /\
+               x_chk x' = x_chk x /\ (validate_unchanged_deferred = false -> x' = x))).
+Proof. exact (g_checking_outcomes validate_gen _ validate_spec x t x' k s sh). Qed.
+
+Theorem validate_never_succeeds_never_runs x t cancel x' s :
+  do_xtry x t cancel = (x', XRTry 3 s) ->
+  s = false /\ c_run (xb x') = None /\ x_chk x' = None /\
+  (c_state (xb x') = SS_PENDING \/ c_state (xb x') = SS_FAILED) /\
+  (has_hash x' = true -> validate_unchanged_deferred = false -> x' = x).
+Proof. exact (g_validate_never_succeeds_never_runs validate_gen _ validate_spec x t cancel x' s). Qed.
+
+(* The source sets `deferred` in the "digest unchanged" branch (fix d760e3e): this is the generated
+   fact the positive theorem needs; it breaks (together with the regression replay of the oracle) if
+   the flag disappears again. *)
+Lemma validate_unchanged_is_deferred : validate_unchanged_deferred = true.
+Proof. reflexivity. Qed.
+
+Theorem validate_unchanged_waits x t x' s :
+  do_xtry x t false = (x', XRTry 3 s) -> has_hash x' = true ->
+  c_state (xb x') = SS_PENDING /\ c_deferred (xb x') = true /\ x_hash x' = x_hash x /\
+  forall mid, forallb not_crow mid = true ->
+    forall t' c, do_xtry (xrun mid x') t' c = (xrun mid x', XRTry 0 false).
+Proof.
+  exact (g_validate_unchanged_waits validate_gen _ validate_spec x t x' s validate_unchanged_is_deferred).
+Qed.
+
+(* ---- instance: the code before fix d760e3e (finding D36) ---- *)
+
+Lemma validate_prefix_spec ie :
+  validate_prefix true ie = if ie then (false, true, SS_PENDING, false) else (true, false, 0, false).
+Proof. destruct ie; reflexivity. Qed.
+
+(* prefix_validate_unchanged_redispatches: with set_state(PENDING) (not deferred) in the "digest
+   unchanged" branch, a VALIDATE_DYNAMIC dispatch that keeps the hash leaves the whole state exactly
+   as it was, so every further dispatch derives the same job with the same result, for ever. *)
+Theorem prefix_validate_unchanged_redispatches x t x' s :
+  do_xtry_gen validate_prefix x t false = (x', XRTry 3 s) -> has_hash x' = true ->
+  x' = x /\ forall t', do_xtry_gen validate_prefix x t' false = (x, XRTry 3 false).
+Proof.
+  intros Htry Hh.
+  exact (g_validate_unchanged_redispatches validate_prefix false validate_prefix_spec x t x' s eq_refl Htry Hh).
 Qed.
 
 (* skip_outcomes: try_skip_job after the output hashing.  The step becomes SUCCEEDED iff the hash
@@ -572,7 +747,7 @@ Proof.
     split; [exact Hs|]. split; [rewrite Hr'; exact Hr|]. intros Hf. rewrite Hdr.
     unfold rehash_failed. cbn [keep_going set_files]. rewrite Hkg, Hf. apply orb_true_r. }
   destruct Hkind as [[Hk Hh]|[[Hk [Hr [sh Hh]]]|[Hk [Hr [sh Hh]]]]].
-  - revert Htry. unfold do_xtry. rewrite Hd, Hc, He. cbn [negb orb].
+  - revert Htry. unfold do_xtry, do_xtry_gen. rewrite Hd, Hc, He. cbn [negb orb].
     rewrite derive_job_kind_spec. unfold has_hash. rewrite Hh. intros Htry. inversion Htry; subst x' s. clear Htry.
     cbn [xb set_xhash set_xb x_hash x_chk].
     destruct (Hfin (set_book (set_crow (xb x) (get_next_step_state_gen false) false (c_dc (xb x)))
@@ -679,7 +854,7 @@ Proof.
   intros Htry. assert (Hk0 : (1 : N) <> 0) by discriminate.
   destruct (do_xtry_dispatched _ _ _ _ _ _ Htry Hk0) as [Hd [Hc [He Hkind]]].
   destruct Hkind as [[_ Hh]|[[Hk _]|[Hk _]]]; try discriminate Hk.
-  split; [exact Hh|]. revert Htry. unfold do_xtry. rewrite Hd, Hc, He. cbn [negb orb].
+  split; [exact Hh|]. revert Htry. unfold do_xtry, do_xtry_gen. rewrite Hd, Hc, He. cbn [negb orb].
   rewrite derive_job_kind_spec. unfold has_hash. rewrite Hh.
   destruct (do_try (xb x) t) as [w' r] eqn:Hdt. intros H. inversion H; subst x' s. clear H.
   cbn [xb set_xhash set_xb fst snd]. split; [reflexivity|].
@@ -708,7 +883,7 @@ Proof.
   - exfalso. cbn in Hstart. contradiction.
   - destruct (do_xtry x t c) as [x' res] eqn:Htry. cbn [fst] in Hstart.
     assert (Hres : exists k s, res = XRTry k s).
-    { revert Htry. unfold do_xtry.
+    { revert Htry. unfold do_xtry, do_xtry_gen.
       destruct (negb (dispatchable (xb x)) || is_checking x); [intros H; inversion H; eauto|].
       destruct (derive_error (xb x)); [intros H; inversion H; eauto|].
       destruct (derive_job_kind_gen _ _); destruct (x_hash x); destruct c; cbn [negb];
@@ -718,7 +893,7 @@ Proof.
         intros H; inversion H; eauto. }
     destruct Hres as [k [s ->]].
     destruct (N.eqb_spec k 0) as [->|Hk0].
-    { exfalso. revert Htry. unfold do_xtry.
+    { exfalso. revert Htry. unfold do_xtry, do_xtry_gen.
       destruct (negb (dispatchable (xb x)) || is_checking x); [intros H; inversion H; subst; contradiction|].
       destruct (derive_error (xb x)); [intros H; inversion H; subst; cbn in Hstart; contradiction|].
       destruct (derive_job_kind_gen _ _); destruct (x_hash x); destruct c; cbn [negb];
@@ -761,11 +936,11 @@ Lemma hash_ok_xtry x t c : hash_ok x -> hash_ok (fst (do_xtry x t c)).
 Proof.
   intros Hok.
   destruct (dispatchable (xb x)) eqn:Hd.
-  2:{ unfold do_xtry. rewrite Hd. exact Hok. }
+  2:{ unfold do_xtry, do_xtry_gen. rewrite Hd. exact Hok. }
   destruct (is_checking x) eqn:Hc.
-  { unfold do_xtry. rewrite Hd, Hc. exact Hok. }
+  { unfold do_xtry, do_xtry_gen. rewrite Hd, Hc. exact Hok. }
   destruct (derive_error (xb x)) eqn:He.
-  { unfold do_xtry. rewrite Hd, Hc, He. cbn [negb orb fst]. apply (hash_ok_same x); [exact Hok|reflexivity|reflexivity]. }
+  { unfold do_xtry, do_xtry_gen. rewrite Hd, Hc, He. cbn [negb orb fst]. apply (hash_ok_same x); [exact Hok|reflexivity|reflexivity]. }
   assert (Hchk : x_chk x = None) by (unfold is_checking in Hc; destruct (x_chk x); [discriminate|reflexivity]).
   destruct (x_hash x) as [sh|] eqn:Hh.
   - pose proof (do_xtry_with_hash x t c sh Hd Hc He Hh) as Hspec. cbv zeta in Hspec. rewrite Hspec. clear Hspec.
@@ -779,7 +954,7 @@ Proof.
       * cbn [fst]. rewrite apply_reset_spec. apply hash_ok_none; reflexivity.
     + cbn [fst]. apply hash_ok_none; [reflexivity|exact Hchk].
     + cbn [fst]. apply hash_ok_none; [reflexivity|exact Hchk].
-  - unfold do_xtry. rewrite Hd, Hc, He. cbn [negb orb]. rewrite derive_job_kind_spec. unfold has_hash. rewrite Hh.
+  - unfold do_xtry, do_xtry_gen. rewrite Hd, Hc, He. cbn [negb orb]. rewrite derive_job_kind_spec. unfold has_hash. rewrite Hh.
     destruct c; cbn [fst].
     + apply hash_ok_none; [reflexivity|exact Hchk].
     + destruct (do_try (xb x) t) as [w' r]. cbn [fst]. destruct (is_running w'); apply hash_ok_none; try reflexivity; exact Hchk.
@@ -837,4 +1012,51 @@ Proof.
   destruct (skip_succeeded_describes_files x0 t x1 mid t' x3 Htry Hchk Hmid Hend)
     as [sh [Hh [_ [_ [_ [Ho _]]]]]].
   destruct Hok as [Ha _]. exact (Ha sh Hh o _ (Ho o Hin)).
+Qed.
+
+(* ====================================================================================== *)
+(* E. What is NOT true: the record of an input replaced while the step is being checked     *)
+(* ====================================================================================== *)
+
+(* The statement one would like for the moment the skip is RECORDED (not only for the moments the
+   files were hashed): the hash kept for c still describes the recorded hash of every input. *)
+Definition skip_record_full : Prop :=
+  forall x0 t x1 mid t' x3,
+    do_xtry x0 t false = (x1, XRTry 2 false) -> is_checking x1 = true ->
+    forallb xenv_only mid = true -> do_xchk (xrun mid x1) t' false = (x3, XRChk true) ->
+    forall sh f h, x_hash x3 = Some sh -> In (f, h) (sh_inp sh) ->
+      f_hash (files (xb x3) f) = h /\ disk (xb x3) f = h.
+
+(* Witness (the skip-path analogue of finding D19): consumer 5 holds the hash ([(1,4)], [(9,7)]);
+   its input 1 is BUILT by step 8.  While try_skip_job hashes the outputs, step 8 is executed again
+   (Workflow.mark_step_pending ignores the CHECKING consumer), rewrites the file (4 -> 7) and
+   completes; try_skip_job never looks at the input records again and records the skip. *)
+Definition skipwin_x0 : xworld :=
+  let w := wit_world FS_BUILT 4 (Some 8) in
+  mkX (set_disk w (upd (disk w) 9 7)) (Some (mkSH 1 [(1, 4)] [(9, 7)])) [9] 1 None.
+Definition skipwin_mid : list xev := map XE rerun_mid.
+
+Lemma skip_record_refuted_by_producer_rerun :
+  let x1 := fst (do_xtry skipwin_x0 1 false) in
+  let x3 := fst (do_xchk (xrun skipwin_mid x1) 4 false) in
+  do_xtry skipwin_x0 1 false = (x1, XRTry 2 false) /\ is_checking x1 = true /\
+  forallb xenv_only skipwin_mid = true /\
+  snd (do_xchk (xrun skipwin_mid x1) 4 false) = XRChk true /\
+  c_state (xb x3) = SS_SUCCEEDED /\ x_hash x3 = Some (mkSH 1 [(1, 4)] [(9, 7)]) /\
+  f_hash (files (xb x3) 1) = 7 /\ disk (xb x3) 1 = 7 /\ f_state (files (xb x3) 1) = FS_BUILT.
+Proof.
+  cbv zeta. split.
+  { rewrite (surjective_pairing (do_xtry skipwin_x0 1 false)) at 1. f_equal; try (vm_compute; reflexivity). }
+  vm_compute. repeat split; reflexivity.
+Qed.
+
+Theorem skip_record_full_refuted : ~ skip_record_full.
+Proof.
+  intros H. destruct skip_record_refuted_by_producer_rerun as [H1 [H2 [H3 [H4 [_ [H6 [H7 _]]]]]]].
+  cbv zeta in *.
+  assert (Hend : do_xchk (xrun skipwin_mid (fst (do_xtry skipwin_x0 1 false))) 4 false =
+                 (fst (do_xchk (xrun skipwin_mid (fst (do_xtry skipwin_x0 1 false))) 4 false), XRChk true)).
+  { rewrite (surjective_pairing (do_xchk _ 4 false)) at 1. rewrite H4. reflexivity. }
+  destruct (H _ _ _ _ _ _ H1 H2 H3 Hend _ 1 4 H6 (or_introl eq_refl)) as [Hr _].
+  rewrite H7 in Hr. discriminate Hr.
 Qed.
